@@ -16,13 +16,14 @@ CHECK = {
                      "verif_export.go wrappers (VerifNewCluster, VerifPushInformerMetrics, VerifPushPingMetrics) and common.StoreMonitor as recording monitor"],
     "assumptions": ["the float decision phi(v, d) >= threshold of the accrual detector is an oracle Boolean of the model (not modelled); "
                     "within one CheckPeers call it is the same for repeated visits of one (name, peer)",
+                    "Window.Add stamps every arrival with a distinct, increasing ReceivedAt (modelled as arrival position + 1)",
                     "cadence: every step of a publish iteration happens within delay < TTL/4 of the timer firing (TTL/10 for the one-error theorem)"],
 }
 META = {
     "text": "Kernel-checked theorems over an executable model of metrics.Window/Store/Checker and LatestMetrics: for every history of arrivals, "
             "removals, peerset changes, queries and failure checks (any window capacity > 0, any accrual oracle) the model's observations satisfy "
             "the safety clauses of the property (at most one metric per peer, the most recent, valid, unexpired, member; fresh never alerted; "
-            "never alerted twice without renewal; only reported stale metrics forgotten); the exactly-once clauses under two explicit hypotheses, "
+            "never alerted twice without renewal; only reported stale metrics forgotten); the exactly-once clauses (across renewals and removals) under one explicit hypothesis (no CheckAll tick over a stored invalid metric), "
             "with a proved counterexample when they are dropped; window wrap-around; publish-loop recurrences overlap for every TTL > 0. "
             "Tied to today's code by running the real Store/Checker/pubsubmon.Monitor on seeded histories and comparing every observation with the model "
             "and with the Lean property checker; cadence measured on the real loops with millisecond TTLs (thorough).",
